@@ -33,11 +33,12 @@ import (
 	pb "massnet.org/mass-wallet/api/proto"
 	"github.com/massnetorg/mass-core/consensus"
 	"github.com/massnetorg/mass-core/wire"
+	"massnet.org/mass-wallet/masswallet/keystore"
 	"verifharness/internal/rng"
 	"verifharness/internal/sim"
 )
 
-var scenarios = []string{"none", "unselected", "selected", "pending", "pending-restart", "importing", "removing1", "removing2", "removed", "starting", "lagging-reorg", "stopped", "race-remove", "hints", "events"}
+var scenarios = []string{"none", "ghost", "unselected", "selected", "pending", "pending-restart", "importing", "removing1", "removing2", "removed", "starting", "lagging-reorg", "stopped", "race-remove", "hints", "events"}
 
 // API methods raced against the completion of the background removal of the selected wallet
 var raceTargets = []string{"GetWalletBalance", "GetAddressBalance", "GetUtxo", "SignRawTransaction", "CreateRawTransaction", "GetTransactionFee", "AutoCreateTransaction", "TxHistory", "GetAddresses", "CreateAddress"}
@@ -55,6 +56,73 @@ func buildScenario(scen string, r *rng.R) (*World, error) {
 				return fail(err)
 			}
 		}
+		return wd, nil
+	}
+	if scen == "ghost" {
+		// The follower processes blocks while NO wallet is ready, and a wallet whose history lies in exactly those
+		// blocks is restored afterwards (a node that ran without wallets, then the user restores one): per-block
+		// bookkeeping that is only set up "when somebody is listening" meets the background import (seed C19e: the
+		// per-block set of confirmed transactions stayed nil and the import's epilogue wrote into it).
+		G, err := wd.newWallet("passG@verif4")
+		if err != nil {
+			return fail(err)
+		}
+		for i := 0; i < 2; i++ {
+			if _, err := wd.newAddr(G, 0); err != nil {
+				return fail(err)
+			}
+		}
+		if err := wd.removeFully(G); err != nil {
+			return fail(err)
+		}
+		g0, g1 := G.addrs[0], G.addrs[1]
+		if _, err := wd.block([]sim.Out{{Script: stdScript(g0.sh), Value: 9e8}}, nil, true); err != nil {
+			return fail(err)
+		}
+		if err := wd.filler(int(sim.Cur.CoinbaseMaturity) + 1); err != nil {
+			return fail(err)
+		}
+		// a spend of G's coin (debit side) paying G's second address and a stranger
+		var gc *coin
+		for _, c := range wd.utxo {
+			if bytes.Equal(c.script, stdScript(g0.sh)) {
+				gc = c
+			}
+		}
+		if gc != nil {
+			t := wd.spend(gc, []sim.Out{{Script: stdScript(g1.sh), Value: gc.val / 2}, {Script: wd.stranger[0], Value: gc.val / 3}})
+			if _, err := wd.block(nil, []*wire.MsgTx{t}, true); err != nil {
+				return fail(err)
+			}
+		}
+		if err := wd.filler(1 + r.Intn(2)); err != nil {
+			return fail(err)
+		}
+		byMnemonic := r.Chance(60) || G.keystoreJSON == ""
+		if byMnemonic {
+			_, err = wd.w.WM.ImportWalletWithMnemonic(&keystore.WalletParams{Mnemonic: G.mnemonic, PrivatePassphrase: []byte(G.pass), Remarks: "ghost",
+				AddressGapLimit: wd.w.Cfg.Wallet.Settings.AddressGapLimit})
+		} else {
+			_, err = wd.w.WM.ImportWallet(G.keystoreJSON, G.pass)
+		}
+		if err != nil {
+			return fail(fmt.Errorf("ghost: import refused: %v", err))
+		}
+		if !wd.w.WaitTasks(30 * time.Second) {
+			return fail(fmt.Errorf("ghost: the background import never finished"))
+		}
+		for i, x := range wd.gone {
+			if x == G {
+				wd.gone = append(wd.gone[:i:i], wd.gone[i+1:]...)
+			}
+		}
+		wd.ws = append(wd.ws, G)
+		if r.Chance(50) {
+			if _, err := wd.w.WM.UseWallet(G.id); err != nil {
+				return fail(err)
+			}
+		}
+		wd.state = "ghost-restored"
 		return wd, nil
 	}
 	if err := wd.build(); err != nil {
